@@ -121,6 +121,8 @@ pub fn minimize(prop: &str, seed: u64, oracle: &str, tag: &str, out_path: &str) 
     try_field!(state_fsync);
     try_field!(no_wait);
     try_field!(dedup);
+    try_field!(dedup_max_entries);
+    try_field!(dedup_expiry_micros);
     try_field!(validate_checksum);
     try_field!(messages_required_to_save);
     try_field!(segment_size);
